@@ -499,8 +499,7 @@ def expected_alternatives(meta, g):
     # de-duplicate
     uniq = []
     for tag, s in out:
-        key = 'plain' if isinstance(s, str) else (tuple(bparams(s)), repr(sorted((k, sorted(map(repr, v))) for k, v in src_as_sets(s)[0].items())),
-                                             repr(sorted(map(repr, src_as_sets(s)[1].items()))))
+        key = 'plain' if isinstance(s, str) else sig_key(s)
         if key not in [u[0] for u in uniq]:
             uniq.append((key, tag, s))
     return [(tag, s) for key, tag, s in uniq]
